@@ -112,6 +112,10 @@ void ParallelAction::onPause() {
 void ParallelAction::onResume() {
     AssembleAction::onResume();
 
+    //! 暂停期间有子动作结束了，恢复时要补上结束条件的检查
+    if (finishIfDone())
+        return;
+
     for (Action *action : children_) {
         if (action->state() == State::kPause)
             action->resume();
@@ -141,16 +145,29 @@ void ParallelAction::pauseAllActions() {
 void ParallelAction::onChildFinished(int index, bool is_succ) {
     if (state() == State::kRunning) {
         finished_children_[index] = is_succ;
+        finishIfDone();
 
-        if ((mode_ == Mode::kAnySucc && is_succ) ||
-            (mode_ == Mode::kAnyFail && !is_succ)) {
-            stopAllActions();
-            finish(true);
-
-        } else if (finished_children_.size() == children_.size()) {
-            finish(true);
-        }
+    } else if (state() == State::kPause) {
+        //! 暂停期间只记录结果，等恢复时再处理
+        finished_children_[index] = is_succ;
     }
+}
+
+//! 检查结束条件，满足则结束
+bool ParallelAction::finishIfDone() {
+    bool is_done = (finished_children_.size() == children_.size());
+
+    for (const auto &item : finished_children_) {
+        if ((mode_ == Mode::kAnySucc && item.second) ||
+            (mode_ == Mode::kAnyFail && !item.second))
+            is_done = true;
+    }
+
+    if (is_done) {
+        stopAllActions();
+        finish(true);
+    }
+    return is_done;
 }
 
 void ParallelAction::onChildBlocked(int, const Reason &why, const Trace &trace) {
